@@ -26,7 +26,7 @@ META = {
     ],
 }
 ENCAP = (1, 2, 3, 0x64, 0x65, 0x69, 0xFFFF)
-EXTS = ((), (0x2105,), (0x0204,), (0x7777,), (1, 2))
+EXTS = ((), (0x2105,), (0x0204,), (0x7777,), (1, 2), (0x0000,))
 SUBS = (0x00, 0x01, 0x7F, 0x80, 0xFF)
 
 
@@ -110,6 +110,8 @@ def kinds():
     K["template-attrs"] = (lambda wd: (lambda: wd.d.get_tag_list(), lambda req, st: req.service == 0x03 and req.path[:1] == [("class", 0x6C)]), "unconstrained")
     K["template-read"] = (lambda wd: (lambda: wd.d.get_tag_list(), lambda req, st: req.service == 0x4C and req.path[:1] == [("class", 0x6C)]), "continue")
     K["symbol-page"] = (lambda wd: (lambda: wd.d.get_tag_list(), svc(0x55)), "continue")
+    K["multi-packet-read"] = (lambda wd: (lambda: wd.d.read("a_dint", "an_ary{4}", "a_udt"), svc(0x0A)), "unconstrained")
+    K["multi-packet-write"] = (lambda wd: (lambda: wd.d.write(("a_dint", 5), ("an_ary{4}", [1, 2, 3, 4])), svc(0x0A)), "unconstrained")
     K["plc-name"] = (lambda wd: (lambda: wd.d.get_plc_name(), lambda req, st: req.path[:1] == [("class", 0x64)]), "fail")
     K["plc-info"] = (lambda wd: (lambda: wd.d.get_plc_info(), lambda req, st: req.path[:1] == [("class", 1)]), "fail")
     return K
@@ -162,6 +164,8 @@ def check_status_case(rep, kind, st, ext, out, six_rule, sig):
             err = error_of(out)
             if not (isinstance(err, str) and err):
                 probs.append(("empty-error", f"general status {st:#04x}: falsy result without an error text: {out!r:.100}"))
+            elif st == 0x1E and kind.startswith("multi-packet"):
+                pass  # 0x1E on a Multiple Service Packet promises embedded replies; without them the reply is not well formed, only "falsy with a text" is demanded
             elif out[0] == "ok" and sig != "helper" and not status_text_ok(err, st, ext):
                 probs.append(("error-text", f"general status {st:#04x} ext {[hex(x) for x in ext]}: error {err!r:.100} does not name the status"))
     rep.case((kind, st, tuple(ext)), outcome=("ok:" + ("success" if ok else "falsy" if out[0] == "ok" else "library-exception")) if not probs else probs[0][0])
@@ -180,11 +184,17 @@ def run_status(rep, kind, tier):
         for ext in EXTS:
             if st == 0 and ext:
                 continue
-            if tier != "thorough" and ext in ((0x7777,), (1, 2)) and st not in (1, 4, 5, 6, 0xFF, 0x1E, 0x13):
+            if tier != "thorough" and ext in ((0x7777,), (1, 2), (0x0000,)) and st not in (1, 4, 5, 6, 0xFF, 0x1E, 0x13):
                 continue
             if st == 0 or (st == 6 and six_rule == "continue"):
                 continue  # the natural run (status 0 / legitimate continuation) is covered by C01/C02/C05
             thunk, matcher = setup(wd)
+            if not helper and (st % 16 == 1 or st in (4, 5, 6, 0xFF)):
+                # history: the same operation succeeds first, then the controller refuses it
+                wd.w.io_budget = wd.w.io_total + 6000
+                pre_ok = call(thunk)
+                if not result_ok(pre_ok):
+                    rep.violation(f"tag-service/{kind}/success-rejected/status0/ext0", f"{kind}: the un-injected operation failed: {pre_ok!r:.100}", {"kind": "status", "req": kind, "status": 0, "ext": []})
             inject(wd, matcher, (st, list(ext), b""))
             wd.w.io_budget = wd.w.io_total + 6000
             out = call(thunk)
@@ -208,6 +218,7 @@ def run_generic(rep, transport, tier):
                 continue
             for data in (b"", b"\x01\x02\x03"):
                 wd.reply = (st, list(ext), data)
+                wd.w.io_budget = wd.w.io_total + 6000
                 out = call(wd.d.generic_message, service=0x0E, class_code=0x99, instance=1, attribute=1, **kw)
                 rule = "unconstrained" if transport == "connected" else "fail"  # Get_Attribute_Single over a connection: library treats 6 by service
                 if st == 6 and transport == "connected":
@@ -281,14 +292,16 @@ def run_encap(rep, tier):
         "readfrag": ("logix", lambda wd: wd.d.read("big{900}"), W.CMD_UNITDATA),
         "list-identity": ("cip", lambda wd: wd.d._list_identity(), W.CMD_LIST_IDENTITY),
         "upload": ("logix", lambda wd: wd.d.get_tag_list(), W.CMD_UNITDATA),
+        "logix-open/list-identity": ("logix-fresh", lambda wd: wd.d.open(), W.CMD_LIST_IDENTITY),
+        "logix-open/plc-info": ("logix-fresh", lambda wd: wd.d.open(), W.CMD_RRDATA),
+        "logix-open/plc-name": ("logix-fresh", lambda wd: wd.d.open(), W.CMD_UNITDATA),
     }
     for name, (drv, thunk, cmd) in ops.items():
         for es in ENCAP:
             for nth in (1, 2):
-                wd = World(drv)
-                call(wd.d.open)
-                if name == "readfrag" or True:
-                    pass
+                wd = World("logix", upload=False) if drv == "logix-fresh" else World(drv)
+                if drv != "logix-fresh":
+                    call(wd.d.open)
                 state = {"n": 0}
 
                 def hook(fr, reply, es=es, cmd=cmd, nth=nth, state=state):
@@ -306,9 +319,11 @@ def run_encap(rep, tier):
                 if hit:
                     if out[0] not in ("ok", "pycomm"):
                         probs.append(("foreign-exception", f"{out!r:.120}"))
+                    elif name.startswith("logix-open"):
+                        pass  # open() may legitimately succeed (ListIdentity is advisory, a refused Forward Open is retried): only the exception type is constrained
                     elif ok and name != "list-identity":
                         probs.append(("error-accepted", f"encapsulation status {es:#x} on reply #{nth} but the call reports success: {out!r:.100}"))
-                    elif out[0] == "ok" and name not in ("list-identity",) and not (isinstance(error_of(out), str) and error_of(out)):
+                    elif out[0] == "ok" and name not in ("list-identity",) and not name.startswith("logix-open") and not (isinstance(error_of(out), str) and error_of(out)):
                         probs.append(("empty-error", f"encapsulation status {es:#x}: falsy result without an error text: {out!r:.100}"))
                 rep.case(("encap", name, es, nth), nontrivial=hit, outcome="ok" if not probs else probs[0][0])
                 for clause, detail in probs:
@@ -385,12 +400,16 @@ MUT_KINDS = {
     "symbol-page": ("logix-noupload", True, lambda wd: wd.d.get_tag_list(), W.CMD_UNITDATA, 1, 48),
     "template-read": ("logix-noupload", True, lambda wd: wd.d.get_tag_list(), W.CMD_UNITDATA, 3, 48),
     "forward-close": ("cip-connected", True, lambda wd: wd.d.close(), W.CMD_RRDATA, 1, 42),
+    # LogixDriver.open(): ListIdentity, Identity (get_plc_info) and program-name replies are consumed while initialising
+    "logix-open/list-identity": ("logix-fresh", False, lambda wd: wd.d.open(), W.CMD_LIST_IDENTITY, 1, 11),
+    "logix-open/plc-info": ("logix-fresh", False, lambda wd: wd.d.open(), W.CMD_RRDATA, 1, 42),
+    "logix-open/plc-name": ("logix-fresh", False, lambda wd: wd.d.open(), W.CMD_UNITDATA, 1, 48),
 }
 
 
 def one_mutation(kind, mutate):
     drv, need_open, thunk, cmd, nth, stoff = MUT_KINDS[kind]
-    if drv == "logix-noupload":
+    if drv in ("logix-noupload", "logix-fresh"):
         wd = World("logix", upload=False)
     elif drv == "cip-connected":
         wd = World("cip")
@@ -452,7 +471,7 @@ def run_mutate(rep, kind, tier):
             probs.append(("foreign-exception", f"{out[1]}: {out[2]}"))
         elif out[0] == "hang":
             probs.append(("hang", "I/O budget exceeded"))
-        elif m[0] == "trunc" and m[1] <= stoff and result_ok(out) and kind not in ("forward-close", "forward-open", "list-identity"):
+        elif m[0] == "trunc" and m[1] <= stoff and result_ok(out) and kind not in ("forward-close", "forward-open", "list-identity") and not kind.startswith("logix-open"):
             # (a refused/unreadable Forward Open is legitimately retried with the standard service; close() and list-identity have no success value)
             probs.append(("short-reply-accepted", f"reply cut to {m[1]} bytes (last status byte at offset {stoff}) reported as success: {out!r:.100}"))
         rep.case((kind, m), outcome=("ok:" + ("success" if result_ok(out) else "falsy" if out[0] == "ok" else "library-exception")) if not probs else probs[0][0])
